@@ -130,6 +130,8 @@ def _check_view_is_map(ctx, fl, label):
     except Exception:  # noqa: BLE001  (reported by views-do-not-raise)
         return
     ctx.check(sorted(v) == sorted(fl._map), f"{label}:view-shows-the-current-map", info=f"{sorted(v)} vs {sorted(fl._map)}")
+    # the view is *ordered* newest-first: it iterates from position 0 downwards (the code relies on that order too)
+    ctx.check(list(v) == sorted(v), f"{label}:view-iterates-newest-first", info=f"positions in view order: {list(v)}")
     for k in fl._map:
         if k in v:
             ctx.check(v[k].timestamp == fl._map[k], f"{label}:view-shows-the-current-map")
@@ -300,16 +302,30 @@ def run_getlog(env):
 
         async def async_send_cmd(self, cmd, **kw):
             await asyncio.sleep(0.01)
+            sent["n"] += 1
+            if sent["fail_at"] is not None and sent["n"] - 1 == sent["fail_at"]:
+                from ramses_tx import exceptions as exc
+
+                raise exc.ProtocolSendFailed("stub: no reply")
             return rp(int(cmd.payload[4:6], 16))
 
+    from ramses_rf.system import heat as H
+
+    sent = {"n": 0, "fail_at": None}
     tcs = type("T", (), {"id": ctl, "_gwy": Gwy()})()
     fl = FL.FaultLog(tcs)
-    n1 = env.choice("n1", [0, 1, 2, 4])
+    tcs._faultlog = fl
+    get_log = lambda **kw: H.Logbook.get_faultlog(tcs, **kw)  # noqa: E731  the system's own entry point
+    n1 = env.choice("n1", [0, 1, 2, 4, 11])
     for k in range(n1):
         log.insert(0, k)
-    lim1 = env.choice("limit1", [1, 3, 8])
-    lim2 = env.choice("limit2", [3, 8])
-    m = env.choice("new_entries", [0, 1, 2])
+    lim1 = env.choice("limit1", [1, 3, 8, 16])
+    lim2 = env.choice("limit2", [3, 8, 16])
+    # a request of the first walk that gets no reply (the walk fails); the controller's log being cleared between the
+    # walks; then new entries (for the long case their announcements are all lost)
+    sent["fail_at"] = env.choice("first_walk_fails_at", [None, 0, 1])
+    cleared = env.flag("log_cleared_between_walks") if n1 >= 2 else False
+    m = env.choice("new_entries", [0, 1, 2, 11] if cleared else [0, 1, 2])
     problems = []
 
     def stamp(k):
@@ -333,19 +349,35 @@ def run_getlog(env):
         ts = [view[i].timestamp for i in keys]
         if ts != sorted(ts, reverse=True) or len(set(ts)) != len(ts):
             problems.append(f"{tag}: view not newest-first / has duplicates: {dict(zip(keys, ts))}")
-        if any(t not in {stamp(k) for k in log} for t in ts):
+        if any(t not in {stamp(k) for k in ever} for t in ts):
             problems.append(f"{tag}: view shows an entry the controller never reported")
+        if limit > len(log) and any(i >= len(log) for i in view):
+            problems.append(f"{tag}: the walk reached the end of the log ({len(log)} entries) but the view still shows positions {[i for i in view if i >= len(log)]}")
+        if list(view) != sorted(view):
+            problems.append(f"{tag}: view not in position order: {list(view)}")
+
+    ever = set(log)
 
     async def main():
-        await fl.get_faultlog(limit=lim1)
-        compare("first read-through", lim1)
+        r1 = await get_log(limit=lim1)
+        if sent["fail_at"] is None or sent["fail_at"] >= sent["n"]:
+            compare("first read-through", lim1)
+        elif r1 is not None:
+            problems.append("first read-through: a request failed but a result was returned")
+        sent["fail_at"] = None
+        if cleared:
+            log.clear()
         for j in range(m):
             k = n1 + j
             log.insert(0, k)
-            if not env.flag(f"announcement_lost{j}"):
+            ever.add(k)
+            if m <= 2 and not env.flag(f"announcement_lost{j}"):
                 pkt = Packet.from_port(t0, f"045  I --- {ctl} --:------ {ctl} 0418 022 {entry_payload(k, 0)}")
                 fl.handle_msg(Message(pkt))
-        await fl.get_faultlog(limit=lim2)
+        n_before = sent["n"]
+        await get_log(limit=lim2)
+        if sent["n"] == n_before:
+            problems.append("second read-through: no request was sent")
         compare("second read-through", lim2)
 
     with running(loop):
@@ -353,7 +385,7 @@ def run_getlog(env):
     loop.run(until=task)
     if task.exception() is not None:
         problems.append(f"get_faultlog raised {type(task.exception()).__name__}: {task.exception()}")
-    return problems, (n1, lim1, m, lim2)
+    return problems, (n1, lim1, m, lim2, bool(cleared))
 
 
 def h_getlog(ctx):
